@@ -18,7 +18,7 @@ import (
 func init() { checks["c02srv"] = checkC02Srv }
 
 func checkC02Srv(job *Job, res *Result) {
-	res.Rule = "SEQ over inputs: 3 datasets (12 objects of every geometry kind at awkward coordinates; the same after overwrites / moves / deletes; 90 grid objects) x 42 areas of 8 kinds (+ 6 CLIPBY combinations) x {WITHIN, INTERSECTS}: search result = set of ids for which TEST on the single object answers 1; SPARSE 1..3 subset of it; distinct = distinct (dataset, command, area, result)"
+	res.Rule = "SEQ over inputs: 3 datasets (12 objects of every geometry kind at awkward coordinates; the same after overwrites / moves / deletes; 90 grid objects) x 42 areas of 8 kinds (+ 11 CLIPBY combinations, 5 of them with two or three CLIPBY clauses) x {WITHIN, INTERSECTS}: search result = set of ids for which TEST on the single object answers 1; SPARSE 1..3 subset of it; distinct = distinct (dataset, command, area, result)"
 	res.Assumptions = append(res.Assumptions, "objects with an empty geometry are never a search result", "TEST has no CLIPBY: a bounds area clipped by bounds is compared with TEST on the intersection rectangle")
 	objs := [][]string{
 		w("p0 POINT 0 0"), w("pn POINT 33.000000123 -115.00000987"), w("ps POINT -33.000000123 115.00000987"), w("pe POINT 90 180"), w("pw POINT -90 -180"),
@@ -51,6 +51,12 @@ func checkC02Srv(job *Job, res *Result) {
 		{w("BOUNDS -90 -180 90 180"), w("BOUNDS 32 -116 33.000000123 -115.00000987"), w("BOUNDS 32 -116 33.000000123 -115.00000987")},
 		{w("BOUNDS -5 -5 5 5"), w("BOUNDS 6 6 8 8"), nil}, // disjoint: nothing
 		{w("BOUNDS 6 6 8 8"), w("BOUNDS 7 7 7 7"), w("BOUNDS 7 7 7 7")},
+		// several CLIPBY clauses: the area is clipped by each in turn
+		{w("BOUNDS -10 -10 10 10"), w("BOUNDS 0 0 5 5 CLIPBY BOUNDS 3 3 9 9"), w("BOUNDS 3 3 5 5")},
+		{w("BOUNDS -10 -10 10 10"), w("BOUNDS 3 3 9 9 CLIPBY BOUNDS 0 0 5 5"), w("BOUNDS 3 3 5 5")},
+		{w("BOUNDS -10 -10 10 10"), w("BOUNDS -1 -1 1 1 CLIPBY BOUNDS -10 -10 10 10"), w("BOUNDS -1 -1 1 1")},
+		{w("BOUNDS -90 -180 90 180"), w("BOUNDS -3 -3 3 3 CLIPBY BOUNDS -20 -20 0 0 CLIPBY BOUNDS -1 -50 50 50"), w("BOUNDS -1 -3 0 0")},
+		{w("BOUNDS -90 -180 90 180"), w("BOUNDS 0 0 3 3 CLIPBY BOUNDS 6 6 8 8"), nil},
 	}
 	x := runExec(job, freezeAllBut(), func(x *Exec) {
 		in := x.Start("L", x.dir+"/L", 9001, nil)
